@@ -800,13 +800,9 @@ impl<const MIN_ALIGN: usize> Bump<MIN_ALIGN> {
     /// How much headroom an arena has before it hits its allocation
     /// limit.
     fn allocation_limit_remaining(&self) -> Option<usize> {
-        self.allocation_limit.get().and_then(|allocation_limit| {
+        self.allocation_limit.get().map(|allocation_limit| {
             let allocated_bytes = self.allocated_bytes();
-            if allocated_bytes > allocation_limit {
-                None
-            } else {
-                Some(usize::abs_diff(allocation_limit, allocated_bytes))
-            }
+            allocation_limit.saturating_sub(allocated_bytes)
         })
     }
 
